@@ -1181,3 +1181,336 @@ Proof.
     eapply last_ok_response; eauto.
   - destruct (q =? se_ecsn se); inv_pair H; fa_tac.
 Qed.
+
+(* ---------- a step of the session as a sequence of micro-steps --------------------------------- *)
+
+Definition dec_retries (r : option nat) : option nat := match r with Some (S n) => Some n | x => x end.
+Definition can_retry (r : option nat) : bool :=
+  match r with None => true | Some O => false | Some (S _) => true end.
+
+(* something the solicited confirm wait does *)
+Record sol_step (s : ostate) (o : list oobs) (s' : ostate) : Prop := {
+  sol_view : (s_unsol s', s_unsol_seq s', s_unsol_buf s', s_now s', s_deferred s', s_pending s', s_enabled s')
+             = (s_unsol s, s_unsol_seq s, s_unsol_buf s, s_now s, s_deferred s, s_pending s, s_enabled s);
+  sol_uw : is_uw (s_control s) = false /\ is_uw (s_control s') = false;
+  sol_out : last_ok s -> Forall solob o /\ last_ok s'
+}.
+
+(* a fragment read during the unsolicited confirm wait, and the end of the wait if it ends it *)
+Definition wait_rx (cfg : ocfg) (s : ostate) (resp : response) (n : bool) (from : N) (bc : option bcast_mode)
+           (bytes : list N) (d : digest) (fid : N) (o : list oobs) (s' : ostate) : Prop :=
+  exists s1 res o1, unsol_wait_fragment cfg s resp from bc bytes d fid = (s1, res, o1) /\
+    match res with
+    | None => s' = s1 /\ o = o1
+    | Some r => exists ns o2, end_unsol cfg s1 n r = (s', ns, o2) /\ o = o1 ++ o2
+    end.
+
+Inductive micro (cfg : ocfg) (e : option oevent) : ostate -> list oobs -> ostate -> Prop :=
+| mi_skip : forall s s', kview s' = kview s -> micro cfg e s [] s'
+| mi_pend_set : forall s from bc bytes d fid,
+    e = Some (ERx from bc bytes d) -> is_uw (s_control s) = false ->
+    micro cfg e s [] (upd_pending s (Some (from, bc, bytes, d, fid)))
+| mi_req : forall s from bc bytes d fid s' o,
+    s_control s = CIdle -> s_pending s = Some (from, bc, bytes, d, fid) ->
+    handle_from_idle cfg (upd_pending s None) from bc bytes d fid = (s', o) -> micro cfg e s o s'
+| mi_sol : forall s o s', sol_step s o s' -> micro cfg e s o s'
+| mi_check : forall s s' b o,
+    s_control s = CIdle -> check_unsolicited cfg s = (s', b, o) -> micro cfg e s o s'
+| mi_wait_ev : forall s resp n ret dl from bc bytes d fid o s',
+    s_control s = CUnsolWait resp n ret dl -> e = Some (ERx from bc bytes d) ->
+    wait_rx cfg s resp n from bc bytes d fid o s' -> micro cfg e s o s'
+| mi_wait_pend : forall s resp n ret dl from bc bytes d fid o s',
+    s_control s = CUnsolWait resp n ret dl -> s_pending s = Some (from, bc, bytes, d, fid) ->
+    wait_rx cfg (upd_pending s None) resp n from bc bytes d fid o s' -> micro cfg e s o s'
+| mi_deferred : forall s ns s' o,
+    s_control s = CIdle -> handle_deferred cfg s ns = (s', o) -> micro cfg e s o s'
+| mi_retry : forall s resp n ret dl t,
+    s_control s = CUnsolWait resp n ret dl -> s_deferred s = None -> can_retry ret = true ->
+    t = Z.max dl (s_now s) ->
+    micro cfg e s (OAt t :: OInfo (IUnsolTimeout (ctl_seq (r_ctl resp)) true) :: repeat_unsolicited cfg s resp)
+          (upd_control (upd_now s t) (CUnsolWait resp n (dec_retries ret) (t + o_confirm_ms cfg)%Z))
+| mi_timeout : forall s resp n ret dl t s' ns o2,
+    s_control s = CUnsolWait resp n ret dl -> (can_retry ret = false \/ s_deferred s <> None) ->
+    t = Z.max dl (s_now s) -> end_unsol cfg (upd_now s t) n UrTimeout = (s', ns, o2) ->
+    micro cfg e s (OAt t :: OInfo (IUnsolTimeout (ctl_seq (r_ctl resp)) false) :: o2) s'
+| mi_sol_timeout : forall s se dl r t,
+    s_control s = CSolWait se dl r -> t = Z.max dl (s_now s) ->
+    micro cfg e s [OAt t; OInfo (ISolTimeout (se_ecsn se)); ODb DbReset] (upd_control (upd_now s t) CIdle)
+| mi_tick : forall s t,
+    s_control s = CIdle -> o_unsol cfg = true -> s_unsol s = UReady (Some t) -> (s_now s < t)%Z ->
+    micro cfg e s [OAt t] (upd_now s t)
+| mi_disconnect : forall s,
+    e = Some EDisconnect ->
+    micro cfg e s [ODb DbReset; OSessionEnd] (upd_pending (upd_control (session_reset s) CIdle) None)
+| mi_fuel : forall s, micro cfg e s [OOutOfFuel] s.
+
+Inductive micros (cfg : ocfg) (e : option oevent) : ostate -> list oobs -> ostate -> Prop :=
+| ms_nil : forall s, micros cfg e s [] s
+| ms_cons : forall s o1 s1 o2 s2 o,
+    micro cfg e s o1 s1 -> micros cfg e s1 o2 s2 -> o = o1 ++ o2 -> micros cfg e s o s2.
+
+Lemma ms_one : forall cfg e s o s', micro cfg e s o s' -> micros cfg e s o s'.
+Proof. intros. eapply ms_cons; [eassumption|apply ms_nil|]. rewrite app_nil_r. reflexivity. Qed.
+
+Lemma ms_app : forall cfg e s o1 s1, micros cfg e s o1 s1 ->
+  forall o2 s2 o, micros cfg e s1 o2 s2 -> o = o1 ++ o2 -> micros cfg e s o s2.
+Proof.
+  induction 1 as [s|s oa sa ob sb oo Hm Hms IH Ho]; intros o2 s2 o H2 Heq.
+  - subst. exact H2.
+  - subst. eapply ms_cons; [exact Hm|eapply IH; [exact H2|reflexivity]|]. rewrite app_assoc. reflexivity.
+Qed.
+
+Lemma end_unsol_idle : forall cfg s n r s' ns o, end_unsol cfg s n r = (s', ns, o) -> s_control s' = CIdle.
+Proof. intros. eapply end_unsol_spec in H. apply H. Qed.
+
+Lemma idle_run_micros : forall cfg e fuel st s s' o,
+  s_control s = CIdle -> idle_run fuel cfg st s = (s', o) -> micros cfg e s o s'.
+Proof.
+  induction fuel as [|f IH]; intros st s s' o Hc H; cbn [idle_run] in H.
+  { inv_pair H. apply ms_one. apply mi_fuel. }
+  destruct st as [| |ns|ns].
+  - (* St1 *)
+    destruct (s_pending s) as [[[[[from bc] bytes] d] fid]|] eqn:Ep.
+    + destruct (handle_from_idle cfg (upd_pending s None) from bc bytes d fid) as [s1 o1] eqn:E1.
+      assert (M1 : micro cfg e s o1 s1) by (eapply mi_req; eauto).
+      destruct (s_control s1) eqn:Ec1.
+      * destruct (idle_run f cfg St2 s1) as [s2 o2] eqn:E2. inv_pair H.
+        eapply ms_cons; [exact M1|eapply IH; eauto|reflexivity].
+      * inv_pair H. apply ms_one. exact M1.
+      * inv_pair H. apply ms_one. exact M1.
+    + rewrite Hc in H. destruct (idle_run f cfg St2 s) as [s2 o2] eqn:E2. inv_pair H.
+      eapply IH; eauto.
+  - (* St2 *)
+    destruct (check_unsolicited cfg s) as [[s2 b] o2] eqn:E2.
+    assert (M2 : micro cfg e s o2 s2) by (eapply mi_check; eauto).
+    destruct (s_control s2) as [|se dl r|resp n ret dl] eqn:Ec2.
+    + destruct (idle_run f cfg (St3 false) s2) as [s3 o3] eqn:E3. inv_pair H.
+      eapply ms_cons; [exact M2|eapply IH; eauto|reflexivity].
+    + inv_pair H. apply ms_one. exact M2.
+    + destruct (s_pending s2) as [[[[[from bc] bytes] d] fid]|] eqn:Ep2.
+      * destruct (unsol_wait_fragment cfg (upd_pending s2 None) resp from bc bytes d fid) as [[s3 res] o3] eqn:E3.
+        destruct res as [r|].
+        -- destruct (end_unsol cfg s3 n r) as [[s4 ns] o4] eqn:E4.
+           destruct (idle_run f cfg (St3 ns) s4) as [s5 o5] eqn:E5. inv_pair H.
+           eapply ms_cons; [exact M2| |reflexivity].
+           eapply ms_cons; [| eapply IH; [|exact E5]; eapply end_unsol_idle; eauto|].
+           ++ eapply mi_wait_pend; [exact Ec2|exact Ep2|].
+              exists s3, (Some r), o3. split; [exact E3|]. exists ns, o4. split; [exact E4|reflexivity].
+           ++ rewrite <- app_assoc. reflexivity.
+        -- inv_pair H. eapply ms_cons; [exact M2| |reflexivity]. apply ms_one.
+           eapply mi_wait_pend; [exact Ec2|exact Ep2|].
+           exists s', None, o3. split; [exact E3|]. split; reflexivity.
+      * inv_pair H. apply ms_one. exact M2.
+  - (* St3 *)
+    destruct (handle_deferred cfg s ns) as [s3 o3] eqn:E3.
+    assert (M3 : micro cfg e s o3 s3) by (eapply mi_deferred; eauto).
+    destruct (s_control s3) eqn:Ec3.
+    + destruct (idle_run f cfg (St4 ns) s3) as [s4 o4] eqn:E4. inv_pair H.
+      eapply ms_cons; [exact M3|eapply IH; eauto|reflexivity].
+    + inv_pair H. apply ms_one. exact M3.
+    + inv_pair H. apply ms_one. exact M3.
+  - (* St4 *)
+    destruct (s_pending s) eqn:Ep; [eapply IH; eauto|].
+    destruct ns; [eapply IH; eauto|].
+    destruct (s_notify s).
+    + eapply ms_cons; [apply (mi_skip cfg e s (upd_notify s false)); reflexivity|eapply IH; [|exact H]; exact Hc|reflexivity].
+    + inv_pair H. apply ms_nil.
+Qed.
+
+Lemma resume_at_micros : forall cfg e st s s' o,
+  s_control s = CIdle -> resume_at cfg st s = (s', o) -> micros cfg e s o s'.
+Proof. intros. eapply idle_run_micros; eauto. Qed.
+
+Lemma idle_loop_micros : forall cfg e n s s' o,
+  s_control s = CIdle -> idle_loop n cfg s = (s', o) -> micros cfg e s o s'.
+Proof. intros. eapply idle_run_micros; eauto. Qed.
+
+Lemma fire_micros : forall cfg e s d t s1 o1,
+  next_deadline cfg s = Some d -> t = Z.max d (s_now s) ->
+  fire_deadline cfg (upd_now s t) = (s1, o1) -> micros cfg e s (OAt t :: o1) s1.
+Proof.
+  intros cfg e s d t s1 o1 Hd Ht H. unfold fire_deadline in H. unfold next_deadline in Hd.
+  change (s_control (upd_now s t)) with (s_control s) in H.
+  destruct (s_control s) as [|se dl r|resp n ret dl] eqn:Ec.
+  - (* idle: the retry deadline *)
+    destruct (o_unsol cfg) eqn:Eu; cbn [negb] in Hd; [|discriminate].
+    destruct (s_unsol s) as [|[t0|]] eqn:Es; try discriminate.
+    destruct (s_now s <? t0)%Z eqn:El; [|discriminate]. inversion Hd; subst d.
+    apply Z.ltb_lt in El. assert (Ht' : t = t0) by lia. subst t. rewrite Ht' in H |- *.
+    eapply ms_cons; [eapply mi_tick; eauto|eapply resume_at_micros; [|exact H]; exact Ec|reflexivity].
+  - inversion Hd; subst d.
+    destruct (resume_at cfg (stage_of r) (upd_control (upd_now s t) CIdle)) as [s2 o2] eqn:E. inv_pair H.
+    eapply ms_cons; [eapply mi_sol_timeout; eauto|eapply resume_at_micros; [|exact E]; reflexivity|reflexivity].
+  - inversion Hd; subst d. cbv zeta in H.
+    change (s_deferred (upd_now s t)) with (s_deferred s) in H.
+    fold (can_retry ret) in H. fold (dec_retries ret) in H.
+    destruct (can_retry ret && match s_deferred s with Some _ => false | None => true end) eqn:Er.
+    + inv_pair H. apply andb_true_iff in Er. destruct Er as [Er1 Er2].
+      apply ms_one. eapply (mi_retry cfg e s resp n ret dl); eauto.
+      destruct (s_deferred s); [discriminate|reflexivity].
+    + destruct (end_unsol cfg (upd_now s t) n UrTimeout) as [[s2 ns] o2] eqn:E2.
+      destruct (resume_at cfg (St3 ns) s2) as [s3 o3] eqn:E3. inv_pair H.
+      eapply ms_cons; [eapply (mi_timeout cfg e s resp n ret dl); eauto| |].
+      * apply andb_false_iff in Er. destruct Er as [Er|Er]; [left; exact Er|right].
+        destruct (s_deferred s); [discriminate|discriminate Er].
+      * eapply resume_at_micros; [|exact E3]. eapply end_unsol_idle; eauto.
+      * cbn [app]. reflexivity.
+Qed.
+
+(* nothing is due up to time t *)
+Definition quiet_until (cfg : ocfg) (s : ostate) (t : Z) : Prop :=
+  match next_deadline cfg s with Some d => (t < d)%Z | None => True end.
+
+Lemma advance_micros : forall cfg e fuel s target s' o,
+  advance fuel cfg s target = (s', o) ->
+  exists s1, micros cfg e s o s1 /\ s' = upd_now s1 target /\ (In OOutOfFuel o \/ quiet_until cfg s1 target).
+Proof.
+  induction fuel as [|f IH]; intros s target s' o H; cbn [advance] in H.
+  { inv_pair H. exists s. split; [apply ms_one; apply mi_fuel|]. split; [reflexivity|left; left; reflexivity]. }
+  destruct (next_deadline cfg s) as [d|] eqn:Ed.
+  - destruct (d <=? target)%Z eqn:El.
+    + destruct (fire_deadline cfg (upd_now s (Z.max d (s_now s)))) as [s1 o1] eqn:E1.
+      destruct (advance f cfg s1 target) as [s2 o2] eqn:E2. inv_pair H.
+      apply IH in E2. destruct E2 as (s3 & Hm & Hs & Hq).
+      exists s3. split; [|split; [exact Hs|]].
+      * eapply ms_app; [eapply fire_micros; eauto|exact Hm|reflexivity].
+      * destruct Hq as [Hq|Hq]; [left; right; apply in_or_app; right; exact Hq|right; exact Hq].
+    + inv_pair H. exists s. split; [apply ms_nil|]. split; [reflexivity|right].
+      unfold quiet_until. rewrite Ed. apply Z.leb_gt in El. exact El.
+  - inv_pair H. exists s. split; [apply ms_nil|]. split; [reflexivity|right].
+    unfold quiet_until. rewrite Ed. exact I.
+Qed.
+
+Lemma on_rx_micros : forall cfg s from bc bytes d s' o,
+  on_rx cfg s from bc bytes d = (s', o) -> micros cfg (Some (ERx from bc bytes d)) s o s'.
+Proof.
+  intros cfg s from bc bytes d s' o H. unfold on_rx in H. cbv zeta in H.
+  set (e := Some (ERx from bc bytes d)).
+  set (fid := (s_frame_id s + 1) mod 4294967296) in *.
+  set (s0 := upd_frame_id s fid) in *.
+  assert (M0 : micro cfg e s [] s0) by (apply mi_skip; reflexivity).
+  change (s_control s0) with (s_control s) in H.
+  destruct (s_control s) as [|se dl r|resp n ret dl] eqn:Ec.
+  - eapply ms_cons; [exact M0| |reflexivity].
+    eapply ms_cons; [eapply (mi_pend_set cfg e s0 from bc bytes d fid); [reflexivity|]| |reflexivity].
+    + change (s_control s0) with (s_control s). rewrite Ec. reflexivity.
+    + eapply idle_loop_micros; [|exact H]. exact Ec.
+  - destruct (sol_wait_fragment cfg s0 se dl from bc bytes d) as [out o1] eqn:E1.
+    assert (Ho1 : last_ok s0 -> Forall solob o1) by (eapply sol_wait_fragment_out; eauto).
+    assert (Hu0 : is_uw (s_control s0) = false) by (change (s_control s0) with (s_control s); rewrite Ec; reflexivity).
+    destruct out as [dl'|rt|].
+    + inv_pair H. eapply ms_cons; [exact M0| |reflexivity]. apply ms_one. apply mi_sol.
+      split; [reflexivity|split; [exact Hu0|reflexivity]|]. intros Hl. split; [auto|exact Hl].
+    + destruct (se_fin se).
+      * destruct (resume_at cfg (stage_of r) (upd_control (upd_last_bcast s0 None) CIdle)) as [s2 o2] eqn:E2.
+        inv_pair H. eapply ms_cons; [exact M0| |reflexivity].
+        eapply (ms_cons cfg e s0 (o1 ++ [ODb DbClearWritten]) _ o2); [apply mi_sol|eapply resume_at_micros; [|exact E2]; reflexivity|rewrite <- app_assoc; reflexivity].
+        split; [reflexivity|split; [exact Hu0|reflexivity]|]. intros Hl. split; [|exact Hl].
+        apply Forall_app; split; [auto|fa_tac].
+      * destruct (format_read_response (upd_last_bcast s0 None) false (seq16_next (se_ecsn se)) 0)
+          as [[[s2 rsp] next] o2] eqn:E2.
+        destruct (write_solicited s2 rt rsp) as [[s3 rsp'] o3] eqn:E3.
+        apply format_read_response_spec in E2. destruct E2 as (F2 & Hr2 & _ & Ho2 & _).
+        pose proof (write_solicited_frame _ _ _ _ _ _ E3) as F3.
+        destruct (write_solicited_out _ _ _ _ _ _ E3 Hr2) as [Ho3 Hr3].
+        pose proof (frame_trans _ _ _ F2 F3) as F. unfold frame, fview, uview in F.
+        set (s4 := upd_last s3 _) in H.
+        assert (Hstep : forall c, is_uw c = false -> sol_step s0 (o1 ++ [ODb DbClearWritten] ++ o2 ++ o3) (upd_control s4 c)).
+        { intros c Hcu. split.
+          - subst s4. psimpl. psimpl_in F. congruence.
+          - split; [exact Hu0|exact Hcu].
+          - intros Hl. split.
+            + apply Forall_app; split; [auto|]. apply Forall_app; split; [fa_tac|].
+              apply Forall_app; split; [eapply Forall_imp; [apply dbq_solob|exact Ho2]|exact Ho3].
+            + intros l x Hs Hx. subst s4. cbn in Hs. destruct (s_last s3) as [l0|]; [|discriminate].
+              inversion Hs; subst. cbn in Hx. inversion Hx; subst. exact Hr3. }
+        destruct next as [nx|].
+        -- inv_pair H. eapply ms_cons; [exact M0| |reflexivity]. apply ms_one. apply mi_sol.
+           apply Hstep. reflexivity.
+        -- destruct (resume_at cfg (stage_of r) (upd_control s4 CIdle)) as [s5 o5] eqn:E5. inv_pair H.
+           eapply ms_cons; [exact M0| |reflexivity].
+           eapply ms_cons; [apply mi_sol; apply (Hstep CIdle); reflexivity|eapply resume_at_micros; [|exact E5]; reflexivity|].
+           rewrite <- !app_assoc. reflexivity.
+    + destruct (resume_at cfg (stage_of r) (upd_pending (upd_control s0 CIdle) (Some (from, bc, bytes, d, fid))))
+        as [s2 o2] eqn:E2. inv_pair H.
+      eapply ms_cons; [exact M0| |reflexivity].
+      eapply (ms_cons cfg e s0 (o1 ++ [ODb DbReset]) (upd_control s0 CIdle) o2); [apply mi_sol| |rewrite <- app_assoc; reflexivity].
+      *         split; [reflexivity|split; [exact Hu0|reflexivity]|]. intros Hl. split; [|exact Hl].
+        apply Forall_app; split; [auto|fa_tac].
+      * eapply ms_cons; [eapply (mi_pend_set cfg e _ from bc bytes d fid); reflexivity| |reflexivity].
+        eapply resume_at_micros; [|exact E2]. reflexivity.
+  - destruct (unsol_wait_fragment cfg s0 resp from bc bytes d fid) as [[s1 res] o1] eqn:E1.
+    destruct res as [r|].
+    + destruct (end_unsol cfg s1 n r) as [[s2 ns] o2] eqn:E2.
+      destruct (resume_at cfg (St3 ns) s2) as [s3 o3] eqn:E3. inv_pair H.
+      eapply ms_cons; [exact M0| |reflexivity].
+      eapply ms_cons; [|eapply resume_at_micros; [|exact E3]; eapply end_unsol_idle; eauto|rewrite <- app_assoc; reflexivity].
+      eapply (mi_wait_ev cfg e s0 resp n ret dl from bc bytes d fid); [exact Ec|reflexivity|].
+      exists s1, (Some r), o1. split; [exact E1|]. exists ns, o2. split; [exact E2|reflexivity].
+    + inv_pair H. eapply ms_cons; [exact M0| |reflexivity]. apply ms_one.
+      eapply (mi_wait_ev cfg e s0 resp n ret dl from bc bytes d fid); [exact Ec|reflexivity|].
+      exists s', None, o. split; [exact E1|]. split; reflexivity.
+Qed.
+
+Lemma in_fuel_app_r : forall (a b : list oobs), In OOutOfFuel b -> In OOutOfFuel (a ++ b).
+Proof. intros. apply in_or_app. right. assumption. Qed.
+
+Theorem ostep_micros : forall cfg s ev a s' o,
+  ostep cfg s ev a = (s', o) ->
+  exists s1, micros cfg (Some ev) s o s1 /\
+             (s' = s1 \/ exists t, s' = upd_now s1 t /\ (In OOutOfFuel o \/ quiet_until cfg s1 t)).
+Proof.
+  intros cfg s ev a s' o H. unfold ostep in H.
+  set (e := Some ev).
+  set (s0 := upd_answers s a) in *.
+  assert (M0 : micro cfg e s [] s0) by (apply mi_skip; reflexivity).
+  destruct ev as [from bc bytes d|ms| |sel op|v|].
+  - destruct (on_rx cfg s0 from bc bytes d) as [s1 o1] eqn:E1.
+    destruct (advance 64 cfg s1 (s_now s1 + settle_ms)) as [s2 o2] eqn:E2. inv_pair H.
+    apply on_rx_micros in E1. apply (advance_micros cfg e) in E2. destruct E2 as (s3 & Hm & Hs & Hq).
+    exists s3. split.
+    + eapply ms_cons; [exact M0|eapply ms_app; [exact E1|exact Hm|reflexivity]|reflexivity].
+    + right. eexists. split; [exact Hs|]. destruct Hq as [Hq|Hq]; [left; apply in_fuel_app_r; exact Hq|right; exact Hq].
+  - destruct (advance 4096 cfg s0 (s_now s0 + ms)) as [sa oa] eqn:Ea. inv_pair H.
+    apply (advance_micros cfg e) in Ea. destruct Ea as (s3 & Hm & Hs & Hq).
+    exists s3. split; [eapply ms_cons; [exact M0|exact Hm|reflexivity]|].
+    right. eexists. split; [exact Hs|exact Hq].
+  - change (s_control s0) with (s_control s) in H.
+    assert (Hfirst : exists s1 o1 s2 o2, micros cfg e s0 o1 s1 /\ advance 64 cfg s1 (s_now s1 + settle_ms) = (s2, o2) /\
+                                         s' = s2 /\ o = o1 ++ o2).
+    { destruct (s_control s) eqn:Ec.
+      - destruct (idle_loop 8 cfg s0) as [s1 o1] eqn:E1.
+        destruct (advance 64 cfg s1 (s_now s1 + settle_ms)) as [s2 o2] eqn:E2. inv_pair H.
+        exists s1, o1, s', o2. split; [eapply idle_loop_micros; [|exact E1]; exact Ec|]. repeat split; auto.
+      - destruct (advance 64 cfg (upd_notify s0 true) (s_now (upd_notify s0 true) + settle_ms)) as [s2 o2] eqn:E2.
+        inv_pair H. exists (upd_notify s0 true), []. do 2 eexists.
+        split; [apply ms_one; apply mi_skip; reflexivity|]. split; [exact E2|]. split; reflexivity.
+      - destruct (advance 64 cfg (upd_notify s0 true) (s_now (upd_notify s0 true) + settle_ms)) as [s2 o2] eqn:E2.
+        inv_pair H. exists (upd_notify s0 true), []. do 2 eexists.
+        split; [apply ms_one; apply mi_skip; reflexivity|]. split; [exact E2|]. split; reflexivity. }
+    destruct Hfirst as (s1 & o1 & s2 & o2 & Hm1 & E2 & -> & ->).
+    apply (advance_micros cfg e) in E2. destruct E2 as (s3 & Hm & Hs & Hq).
+    exists s3. split.
+    + eapply ms_cons; [exact M0|eapply ms_app; [exact Hm1|exact Hm|reflexivity]|reflexivity].
+    + right. eexists. split; [exact Hs|]. destruct Hq as [Hq|Hq]; [left; apply in_fuel_app_r; exact Hq|right; exact Hq].
+  - cbv beta iota in H. inv_pair H. exists (upd_knobs s0 sel op (s_app_iin s0)). split; [|left; reflexivity].
+    eapply ms_cons; [exact M0|apply ms_one; apply mi_skip; reflexivity|reflexivity].
+  - cbv beta iota in H. inv_pair H. exists (upd_knobs s0 (s_sel_status s0) (s_op_status s0) v). split; [|left; reflexivity].
+    eapply ms_cons; [exact M0|apply ms_one; apply mi_skip; reflexivity|reflexivity].
+  - set (s1 := upd_pending (upd_control (session_reset s0) CIdle) None) in H.
+    destruct (idle_loop 8 cfg s1) as [s2 o2] eqn:E2.
+    destruct (advance 64 cfg s2 (s_now s2 + settle_ms)) as [s3 o3] eqn:E3. inv_pair H.
+    apply (idle_loop_micros cfg e) in E2; [|reflexivity].
+    apply (advance_micros cfg e) in E3. destruct E3 as (s4 & Hm & Hs & Hq).
+    exists s4. split.
+    + eapply ms_cons; [exact M0| |reflexivity].
+      eapply (ms_cons cfg e s0 [ODb DbReset; OSessionEnd] s1); [apply mi_disconnect; reflexivity| |reflexivity].
+      eapply ms_app; [exact E2|exact Hm|reflexivity].
+    + right. eexists. split; [exact Hs|].
+      destruct Hq as [Hq|Hq]; [left; right; right; apply in_fuel_app_r; exact Hq|right; exact Hq].
+Qed.
+
+Theorem ostart_micros : forall cfg sel op iin a s' o,
+  ostart cfg sel op iin a = (s', o) ->
+  micros cfg None (upd_answers (ostate_init cfg sel op iin) a) o s'.
+Proof. intros. eapply idle_loop_micros; [|exact H]. reflexivity. Qed.
